@@ -101,3 +101,11 @@ Proof. vm_compute. repeat split. Qed.
 Example c18_closure_shutdown_refuted :
   lost (run (start 2 (closure_prog 2)) [EIntake 0; EMain; EMain; EMain; EMain; EWork 0]) = 1.
 Proof. exact closure_prog_loses. Qed.
+
+(* "... and exit": from EVERY state the collector can reach after SIGTERM (any number of receivers, any history of
+   readers, workers and main), there is a continuation -- the workers drain their queues -- on which the main goroutine
+   runs to its end: Stop is never stuck for good, the output gets closed (and by c18_shutdown_loses_nothing with
+   everything written that was taken in) *)
+Theorem c18_shutdown_can_finish : forall n es, exists es', prog (run (run (start n (main_prog n)) es) es') = [].
+Proof. exact shutdown_can_finish. Qed.
+Print Assumptions c18_shutdown_can_finish.
